@@ -99,15 +99,18 @@ def main():
     os.makedirs(os.path.join(VERIF, "replays"), exist_ok=True)
     printed_known, n_viol = set(), 0
     # a violation with a concrete failing input takes precedence in reporting
-    has_input = any(v["failing_input"] for v in ctx.violations)
-    out_lines = []
-    for v in ctx.violations:
-        match = None
+    def known_match(v):
         if v["failing_input"]:
             for e in known:
                 if common.sig_matches(e.get("signature"), v["signature"]):
-                    match = e
-                    break
+                    return e
+        return None
+
+    # only a NEW (not listed) failing input may absorb the 'no failing input' violations
+    has_input = any(v["failing_input"] and known_match(v) is None for v in ctx.violations)
+    out_lines = []
+    for v in ctx.violations:
+        match = known_match(v)
         if match is not None:
             if match["id"] not in printed_known:
                 printed_known.add(match["id"])
